@@ -155,6 +155,21 @@ def hand_cases():
                     "stage A2(\n    in  int a,\n    in  int b,\n    out int y,\n    src py \"a\",\n)\n\npipeline TOP(\n    out map<int> ys,\n)\n{\n"
                     "    map call A2(\n        a = split {\"\": 1, \"b\": 2, \"d\": 3, \"e\": 4},\n        b = split {\"w\": 1, \"x\": 2, \"y\": 3, \"z\": 4},\n"
                     "    )\n\n    return (\n        ys = A2.y,\n    )\n}\n\ncall TOP(\n)\n"))
+    # a call bound to several of its own outputs inside one map literal: one error per reference
+    out.append(prog("errors_selfdep_map",
+                    "stage S(\n    in  map<int> m,\n    out int a,\n    out int b,\n    out int c,\n    out int d,\n    out int e,\n    src py \"s\",\n)\n\n"
+                    "pipeline TOP(\n    out int y,\n)\n{\n    call S(\n        m = {\n            \"k1\": S.a,\n            \"k2\": S.b,\n            \"k3\": S.c,\n            \"k4\": S.d,\n            \"k5\": S.e,\n        },\n    )\n\n"
+                    "    return (\n        y = S.a,\n    )\n}\n\ncall TOP(\n)\n"))
+    # repairing the include list (mro format --includes): several stages and types that no file
+    # on the path defines, several that other files define
+    out.append({"id": "fixinc_missing", "top": "top.mro",
+                "files": {"top.mro": "pipeline TOP(\n    in  T1 t,\n    out int y,\n)\n{\n" +
+                          "".join("    call M%d(\n        x = self.t,\n    )\n\n" % i for i in (4, 1, 6, 0, 3, 5, 2)) +
+                          "".join("    call D%d(\n        x = self.t,\n    )\n\n" % i for i in (2, 0, 1)) +
+                          "    return (\n        y = D0.y,\n    )\n}\n",
+                          "d0.mro": "struct T1(\n    int a,\n)\n\nstage D0(\n    in  T1 x,\n    out int y,\n    src py \"d\",\n)\n",
+                          "d1.mro": "struct T1(\n    int a,\n)\n\nstage D1(\n    in  T1 x,\n    out int y,\n    src py \"d\",\n)\n",
+                          "sub/d2.mro": "struct T1(\n    int a,\n)\n\nstage D2(\n    in  T1 x,\n    out int y,\n    src py \"d\",\n)\n"}})
     # strings the parser interns (stage code, output file names, resource `special`), first with a
     # literal backslash spelled \\\\ then - in the next source, for a parser that has kept the first -
     # with the escape that the first one's text spells
